@@ -83,32 +83,48 @@ def judge(module, cfg, files, tag, env_extra=None, timeout=3600, heap="3g"):
     """Run the trace spec over every file (parallel TLC processes).  Returns list of
     (file_index, line_index(1-based), clause) and the number of machinery errors."""
     results = []
+    offsets, cur_files, depth, retry = {}, {}, {}, []
 
     def one(i):
-        env = {"TRACE_FILE": files[i]}
+        env = {"TRACE_FILE": cur_files.get(i, files[i])}
         if env_extra:
             env.update(env_extra)
         r = tlc.run_tlc(module, cfg, "%s_j%04d" % (tag, i), workers=1, env=env, cont=True,
                         timeout=timeout, heap=heap)
         return i, r
 
-    with concurrent.futures.ThreadPoolExecutor(max_workers=min(16, max(1, len(files)))) as ex:
-        for i, r in ex.map(one, range(len(files))):
+    todo = list(range(len(files)))
+    while todo:
+      del retry[:]
+      with concurrent.futures.ThreadPoolExecutor(max_workers=min(16, max(1, len(todo)))) as ex:
+        for i, r in ex.map(one, todo):
             if r.errors:
                 # an evaluation error while judging a record is a verdict on that record (total verdicts):
-                # the record is outside what the specification can even interpret
+                # the record is outside what the specification can even interpret.  The records after it
+                # are judged in a follow-up run.
                 import re as _re
                 txt = open(r.out_path).read()
                 m = _re.search(r"^(?:/\\ )?l = (\d+)\s*$", txt, _re.M)
                 if m and "Parsing or semantic analysis failed" not in txt:
-                    results.append((i, int(m.group(1)), "EvalError"))
+                    bad = int(m.group(1))
+                    off = offsets.get(i, 0)
+                    results.append((i, off + bad, "EvalError"))
                     for v in r.violations:
                         lv = v["state"].get("l")
-                        if lv is not None:
-                            results.append((i, int(lv), v["name"]))
+                        if lv is not None and int(lv) < bad:
+                            results.append((i, off + int(lv), v["name"]))
+                    lines = open(cur_files.get(i, files[i])).read().splitlines()
+                    rest = lines[bad:]
+                    if rest and depth.get(i, 0) < 40:
+                        nf = files[i] + ".rest%d" % depth.get(i, 0)
+                        open(nf, "w").write("\n".join(rest) + "\n")
+                        cur_files[i] = nf
+                        offsets[i] = off + bad
+                        depth[i] = depth.get(i, 0) + 1
+                        retry.append(i)
                     continue
             tlc.require_clean(r, "trace validation %s on %s" % (module, files[i]))
-            nrec = sum(1 for _ in open(files[i]))
+            nrec = sum(1 for _ in open(cur_files.get(i, files[i])))
             if r.distinct != nrec:
                 raise MachineryError("trace validation %s: %d records but TLC saw %d initial states (%s)"
                                      % (module, nrec, r.distinct, r.out_path))
@@ -116,8 +132,9 @@ def judge(module, cfg, files, tag, env_extra=None, timeout=3600, heap="3g"):
                 lv = v["state"].get("l")
                 if lv is None:
                     raise MachineryError("cannot locate violating record in %s" % r.out_path)
-                results.append((i, int(lv), v["name"]))
+                results.append((i, offsets.get(i, 0) + int(lv), v["name"]))
             shutil.rmtree(os.path.dirname(r.out_path), ignore_errors=True)
+      todo = list(retry)
     return results
 
 
